@@ -12,8 +12,8 @@ library's code:
   * auto bins           = the type's value range split like a bin array with
                           n = auto_bin_max (default 64); enum: one bin per
                           enumerator (ascending value)
-  * ignore / illegal    = removed from every regular bin before partitioning,
-                          tallied in counters of their own
+  * ignore / illegal    = removed from every regular bin (wildcard bins included)
+                          before partitioning, tallied in counters of their own
   * a value in two explicit bins counts in both; outside every bin: nothing
   * cross               = cartesian product in coverpoint order, "<a,b>";
                           +1 iff cross iff, every coverpoint iff and every
@@ -141,7 +141,9 @@ def wild_values(pats, tvalues):
 class RefCP(object):
     """flat bin lists of one coverpoint: [(name, frozenset)]"""
 
-    def __init__(self, cpspec, cgspec):
+    def __init__(self, cpspec, cgspec, wild_excl=True):
+        """wild_excl=False builds the ALTERNATIVE model in which ignore/illegal values are
+        not removed from wildcard bins (used only to recognise a known finding's symptom)"""
         enums = cgspec.get("enums", {})
         self.spec = cpspec
         self.name = cpspec["name"]
@@ -203,12 +205,12 @@ class RefCP(object):
                     if not parts:
                         self.empty_decls.append(bname)
                 elif k == "wild":
-                    s = frozenset(wild_values(b["pats"], self.tvalues))
+                    s = frozenset(v for v in wild_values(b["pats"], self.tvalues) if not (wild_excl and v in excl))
                     # a wildcard bin exists even when nothing of the type matches
                     self.bins.append((bname, s))
                     self.origin.append((bname, 0))
                 elif k == "warray":
-                    vals = wild_values(b["pats"], self.tvalues)
+                    vals = [v for v in wild_values(b["pats"], self.tvalues) if not (wild_excl and v in excl)]
                     for i, s in enumerate(partition(vals, b.get("n"))):
                         self.bins.append(("%s[%d]" % (bname, i), s))
                         self.origin.append((bname, i))
@@ -273,11 +275,11 @@ class RefCross(object):
 class RefShape(object):
     """one covergroup class instantiated with one constructor variant"""
 
-    def __init__(self, cgspec, variant=0):
+    def __init__(self, cgspec, variant=0, wild_excl=True):
         self.cgspec = cgspec
         self.variant = variant
         var = cgspec["variants"][variant]
-        self.cps = [RefCP(c, cgspec) for c in var["cps"]]
+        self.cps = [RefCP(c, cgspec, wild_excl) for c in var["cps"]]
         by = {c.name: c for c in self.cps}
         self.crosses = [RefCross(c, by, cgspec) for c in var.get("crosses", [])]
         self.key = (cgspec["name"], tuple(c.shape() for c in self.cps), tuple(c.shape() for c in self.crosses))
